@@ -93,6 +93,11 @@ pub struct Resolver<'ast, 'res> {
     // Stack of variable symbol tables for block-scoped variables
     variable_scopes: Vec<VariableScope<'ast, 'res>, &'res Arena>,
 
+    // While the return type of a hoisted function is inferred ahead of its body: the
+    // function's own parameters and the variables its body declares. They are not in
+    // scope yet, and a same-named variable of an enclosing scope is a different one.
+    signature_shadow: Vec<&'ast str, &'res Arena>,
+
     // Stack of function symbol tables for block-scoped functions
     function_scopes: Vec<Vec<FunctionSig<'ast>, &'res Arena>, &'res Arena>,
 
@@ -135,6 +140,7 @@ impl<'ast, 'res> Resolver<'ast, 'res> {
     pub fn with_facts_arena(arena: &'res Arena, facts_arena: &'ast Arena) -> Self {
         Self {
             variable_scopes: Vec::new_in(arena),
+            signature_shadow: Vec::new_in(arena),
             function_scopes: Vec::new_in(arena),
             current_function: None,
             current_owner: FunctionId(0),
@@ -603,7 +609,11 @@ impl<'ast, 'res> Resolver<'ast, 'res> {
         for _ in 0..pending.len() {
             let mut changed = false;
             for pending_def in &pending {
+                self.signature_shadow.clear();
+                self.signature_shadow.extend(pending_def.params.params.iter().copied());
+                Self::collect_declared_names(pending_def.body, &mut self.signature_shadow);
                 let return_type = self.infer_function_return_type(pending_def.body);
+                self.signature_shadow.clear();
                 let current_scope = self
                     .function_scopes
                     .last_mut()
@@ -1309,7 +1319,12 @@ impl<'ast, 'res> Resolver<'ast, 'res> {
             Expr::Bool(..) => Some(ValueType::Bool),
             Expr::Array { .. } => Some(ValueType::Array),
             Expr::Index { .. } => Some(ValueType::Dynamic),
-            Expr::Var(v, ..) => self.lookup_var_info(v).map(|(t, _)| t),
+            Expr::Var(v, ..) => {
+                if self.signature_shadow.contains(v) {
+                    return Some(ValueType::Dynamic);
+                }
+                self.lookup_var_info(v).map(|(t, _)| t)
+            }
             Expr::Binary { op, lhs, rhs, .. } => {
                 let l = self.infer_expr_type(lhs)?;
                 let r = self.infer_expr_type(rhs)?;
@@ -1427,6 +1442,24 @@ impl<'ast, 'res> Resolver<'ast, 'res> {
 
         let first_type = return_types[0];
         if return_types.iter().all(|t| *t == first_type) { first_type } else { ValueType::Dynamic }
+    }
+
+    // Names declared with `make` in `block`, nested function bodies excluded.
+    fn collect_declared_names(block: BlockRef<'ast>, names: &mut Vec<&'ast str, &'res Arena>) {
+        for stmt in block.stmts {
+            match stmt {
+                Stmt::Assign { var, .. } => names.push(var),
+                Stmt::If { then_b, else_b, .. } => {
+                    Self::collect_declared_names(then_b, names);
+                    if let Some(else_b) = else_b {
+                        Self::collect_declared_names(else_b, names);
+                    }
+                }
+                Stmt::Loop { body, .. } => Self::collect_declared_names(body, names),
+                Stmt::Block { block, .. } => Self::collect_declared_names(block, names),
+                _ => {}
+            }
+        }
     }
 
     fn collect_return_types(
